@@ -83,7 +83,11 @@ def table : Handler := fun j => do
   let iLogd ← (← arr (← j.getObjVal? "logd")).mapM optNatOf
   let names ← getStrList j "names"
   let idx := List.range L.concepts.length
-  let latOk := Spec.isLatticeOfB t L
+  -- `"objside": true` : enumerate the concepts from the object side (wide tables: 2^|G| instead of 2^|M| subsets)
+  let objside := match j.getObjVal? "objside" with
+    | .ok (.bool b) => b
+    | _ => false
+  let latOk := if objside then Spec.isLatticeOfObjB t L else Spec.isLatticeOfB t L
   let conceptsOk := L.concepts.all fun c => Spec.isConcept t c.1 c.2
   -- spec: the definition value for every concept
   let defs := L.concepts.map fun c => Spec.stabilityDef t c.1 c.2
